@@ -480,7 +480,25 @@ def systematic():
             add(b"C0644 3 one\nabc\0", dest=dest, y=y)
             add(b"C0644 3 one\nabc\0C0600 2 two\nxy\0", dest=dest, y=y, p=1)
             add(b"D0755 0 dd\nC0644 3 one\nabc\0E\n", dest=dest, y=y)
+    # -- every receiver OPTION combination x every hostile name (seeded change C12-14: the name check applied only when
+    # the receiver was started with -y; the class: a guard of _sink() made conditional on an option or on what DEST is):
+    # -y on/off x -p on/off x DEST an existing directory / a directory given with a slash / an existing file / missing,
+    # the name in a file record, and twice in directory records with a file inside (`D .. ..` climbs two levels)
+    for nm in OPT_NAMES:
+        for y in (0, 1):
+            for p in (0, 1):
+                for dest in (b"dest", b"dest/sub/", b"dest/old", b"dest/missing"):
+                    t = T if p else b""
+                    add(t + b"C0644 5 " + nm + b"\nhello\0" + t + AFTER, dest=dest, y=y, p=p)
+                    add(t + b"D0755 0 " + nm + b"\n" + t + b"D0755 0 " + nm + b"\n" + t + b"C0644 5 pwned\nhello\0E\nE\n" + t + AFTER,
+                        dest=dest, y=y, p=p)
     return cs
+
+
+# names for the option matrix of `systematic`: every name that leads (or nearly leads) out of DEST, plus two harmless ones
+OPT_NAMES = [b"..", b"../x", b"../evil", b"../victim", b"../vdir", b"sub/../../x", b"a/../..", b"/abs", b"/", b"/o/w/victim",
+             b"x/..", b"./..", b"sub/..", b"..//", b"a/b", b"sub/x", b"sub/", b"./x", b"..\0x", b".. ", b"..\r", b".", b"",
+             b"..x", b"sub", b"old", b"fresh"]
 
 
 
@@ -1057,7 +1075,8 @@ def run(ctx):
                    "files that fit); symbolic links that already exist inside the destination (to a directory, a file, "
                    "nothing, an ancestor; relative and absolute) met by plain received names; a fixed systematic part in every "
                    "run (see `systematic`, `env_cases`: scripted st_blksize, fragmented/short/interrupted reads, interrupted/"
-                   "short writes, failing open/fstat at every call index); jail around the "
+                   "short writes, failing open/fstat at every call index; every name that leads or nearly leads out of DEST x -y on/off "
+                   "x -p on/off x DEST existing directory / directory with slash / existing file / missing); jail around the "
                    "destination holds victim files/dirs.  non-trivial = the stream starts with >= 1 syntactically "
                    "valid control record; distinct = distinct (stream, dest, options)"}
     dist = {"reply_classes": {}, "escapes": 0, "malformed": 0, "crash": 0, "model_mismatch": 0}
